@@ -12,7 +12,12 @@
 (* "upd"   UpdateNameMappings(entries) on the live writer: the ghost table   *)
 (*         takes the entries (Override).                                     *)
 (* "hmap"  one operation on the live writer: as "map", judged with the ghost *)
-(*         table = the mapping in force when the operation is handled.       *)
+(*         table = the mapping in force when the operation is handled.  The  *)
+(*         api events of one collection share the collection's source object *)
+(*         (the reader's CollectionInfo / PartitionInfo): after every step   *)
+(*         the objects still carry the SOURCE names (src), and a drop event  *)
+(*         is recorded under the source names (recheck) - "bookkeeping keyed *)
+(*         by source names is unaffected by the mapping".                    *)
 (* "reset" a fresh writer starts the same history again (Go map order).      *)
 (* "end"   alias queries at the end of a history.                            *)
 (* Known findings (env KF_<name>) excuse exactly the calls they describe.    *)
@@ -79,10 +84,22 @@ MapStep(pl, e) ==
        /\ (aliasKF => PrintT("KF " \o pl \o " C09_RECHECK_MAPPED"))
 
 \* ---- "hmap": one operation on the live writer, t = the ghost table (mapping in force)
+\* the source objects of the collections used by api events so far: name fields now (name, dbname, parts[j].name) = the
+\* source names they were created with (coll, db0, parts[j].part)
+SrcOK(e) ==
+    "src" \in DOMAIN e =>
+        \A i \in 1..Len(e.src) :
+            LET o == e.src[i] IN
+            /\ o.name = o.coll /\ o.dbname = o.db0
+            /\ \A j \in 1..Len(o.parts) : o.parts[j].name = o.parts[j].part
+\* a drop event that was applied is known as a drop under the source names (asked at the stamp of the drop, no probe needed)
+HDropOK(e) ==
+    ("recheck" \in DOMAIN e /\ e.kind \in {"dropCollection", "dropPartition"} /\ e.ok) => e.recheck = "dropped" /\ ~e.recheckProbed
 HMapStep(pl, e, t) ==
     /\ CallsJudged(pl, e, t)
     /\ Reached(e) /\ e.ok /\ ~e.fail
     /\ (e.kind \in ProbeKinds => e.state = "created")
+    /\ SrcOK(e) /\ HDropOK(e)
 
 \* ---- "end": names that only exist as mapping targets are unknown to the bookkeeping (a query for them probes)
 EndStep(pl, e) == \A i \in 1..Len(e.alias) : e.alias[i].probed
